@@ -2,8 +2,10 @@
    src/mxlpy/meta/sympy_tools.py by harness/c17.py; do not edit.  An unrecognised shape yields an
    *Unknown constructor / empty string / false, which breaks C17_facts_pinned. *)
 From Coq Require Import String List.
-From SbmlImp Require Import SbmlImport.
+From SbmlImp Require Import SbmlImport SbmlVariants.
 Import ListNotations.
 Open Scope string_scope.
 Definition gen_facts : facts :=
   mkFacts "init_"%string "_stoich_"%string RxnInfixFn [SecVars; SecPars; SecDer; SecRxn] ParamsThenVars StemOnly "mb_"%string RegFresh true.
+Definition gen_facts2 : facts2 :=
+  mkFacts2 RxnAll MathQualified LitRepr LitRepr LitRepr.
